@@ -165,6 +165,13 @@ class APE:
         self.paths = []
         self.opaque_calls = set(opaque_calls)
         self.start_env = start_env or {}
+        from .facts import walk as _walk
+        self.localnames = set(p["name"] for p in func.params)
+        for n in _walk(func.body):
+            if n["k"] == "DeclStmt":
+                for d in n["decls"]:
+                    if not d.get("static"):
+                        self.localnames.add(d["name"])
 
     # ---- symbolic values ------------------------------------------------
     def lkey(self, n):
@@ -467,12 +474,25 @@ class APE:
                             for k in [k for k in st.env if k.startswith(pref)]:
                                 del st.env[k]
                 else:
-                    # type-based refinement: only keys ending in a field the callee may store to
+                    # type-based refinement: only keys ending in a field the callee may store to, and only
+                    # objects the callee can reach from what it is given (roots mentioned in its arguments)
                     st.epoch += 1
+                    roots = set()
+                    for a in args:
+                        for x in _re.findall(r"[A-Za-z_]\w*", canon(a)):
+                            roots.add(x)
                     for k in [k for k in st.env if not self._is_var_key(k)]:
+                        m0 = _re.match(r"^[*&(]*([A-Za-z_]\w*)", k)
+                        if m0 and m0.group(1) not in roots and m0.group(1) in self.localnames:
+                            continue
                         last = k.replace("->", ".").rsplit(".", 1)[-1] if ("->" in k or "." in k) else None
                         if last is None or "[" in last:
-                            if "*" in wf or last is None:
+                            # plain dereference / element: written only through a pointer handed over for writing
+                            wroots = set()
+                            for wi in widx:
+                                if wi < len(args):
+                                    wroots.update(_re.findall(r"[A-Za-z_]\w*", canon(args[wi])))
+                            if m0 and m0.group(1) in wroots:
                                 del st.env[k]
                         elif last in wf:
                             del st.env[k]
